@@ -560,6 +560,12 @@ func (s *Sim) GenAccountTx(t *rapid.T, kinds []string) *Tx {
 		amt := big.NewInt(int64(rapid.IntRange(0, 1000000).Draw(t, "issueamt")))
 		data := common.LeftPadBytes(amt.Bytes(), 32)
 		return &Tx{Tx: world.RawTx(from, nonce, &c, big.NewInt(0), 800000, world.GasPrice, data), Kind: kind, From: from.Addr, IssueTok: c, IssueAmt: amt, Desc: fmt.Sprintf("issue %v nonce %d", amt, nonce)}
+	case "create-and-die":
+		// a contract whose constructor self-destructs in favour of its creator (init code CALLER SELFDESTRUCT): the account
+		// is created and deleted inside one transaction, so the state deletes a key it has never stored.  No value is sent.
+		ca := crypto.CreateAddress(from.Addr, nonce, []byte{0x33, 0xff})
+		s.Universe[ca] = struct{}{}
+		return &Tx{Tx: world.RawTx(from, nonce, nil, big.NewInt(0), 2000000, world.GasPrice, []byte{0x33, 0xff}), Kind: kind, From: from.Addr, Desc: fmt.Sprintf("create-and-die nonce %d", nonce)}
 	case "create":
 		code := rapid.SampledFrom([][]byte{CodeReverter, CodeForwarder, CodeSuicider}).Draw(t, "createcode")
 		if forcedCode != nil {
